@@ -671,15 +671,12 @@ Definition is_valid (g : vgeom) : bool := match validate g with None => true | S
 Definition is_valid_v0 (g : vgeom) : bool := match validate_v0 g with None => true | Some _ => false end.
 
 (* ---------------------------------------------------------------- representation changes *)
-(* a closed vertex list started at its k-th vertex: drop the closing vertex, rotate, close again *)
-Definition rot_open {A} (k : nat) (l : list A) : list A := skipn k l ++ firstn k l.
-Definition rotate_ring {A} (k : nat) (r : list A) : list A :=
+(* a closed vertex list started at its next vertex: drop the first vertex, close with the new
+   first one; started at its k-th vertex: k such steps *)
+Definition rot1 {A} (r : list A) : list A :=
   match r with
-  | [] => []
-  | _ => let o := removelast r in
-         match rot_open (k mod (length o)) o with
-         | [] => r
-         | a :: t => (a :: t) ++ [a]
-         end
+  | _ :: ((b :: _) as t) => t ++ [b]
+  | _ => r
   end.
+Definition rotate_ring {A} (k : nat) (r : list A) : list A := Nat.iter k rot1 r.
 Definition reverse_ring {A} (r : list A) : list A := rev r.
